@@ -79,6 +79,15 @@ func (g *gen) entryEnv(st *state) *env {
 }
 
 func (g *gen) lookupCommon(e *env, name string) (sval, bool) {
+	if g.con != nil {
+		for _, gh := range g.con.Ghosts {
+			if gh == name {
+				c := "ghost." + name
+				g.declare(c, "Int")
+				return sval{t: c, gt: tInt, sort: "Int"}, true
+			}
+		}
+	}
 	// free variables of closures: the captured variable's current content
 	if p, ok := g.params[name]; ok {
 		if fv, isFV := p.(*ssa.FreeVar); isFV {
@@ -624,6 +633,14 @@ func (g *gen) specCall(e *env, n *ast.CallExpr) sval {
 			base = e.freshBase
 		}
 		return sval{t: sAnd(app(">", v.t, base)), gt: tBool, sort: "Bool"}
+	case "freshSlice":
+		// the backing array of the slice was allocated by this call (or the slice is nil)
+		v := arg(0)
+		base := g.top0
+		if e.freshBase != "" {
+			base = e.freshBase
+		}
+		return sval{t: sOr(sEq(app("s.base", v.t), "0"), app(">", app("s.base", v.t), base)), gt: tBool, sort: "Bool"}
 	case "allocated":
 		v := arg(0)
 		return sval{t: sAnd(app("<=", v.t, e.st.top)), gt: tBool, sort: "Bool"}
@@ -672,6 +689,18 @@ func (g *gen) specCall(e *env, n *ast.CallExpr) sval {
 		return sval{t: app("select", g.heapVar(e.st, sbHeap, sbSort), v.t), sort: "RSeq"}
 	case "errflag":
 		return sval{t: g.errFlag, gt: tBool, sort: "Bool"}
+	case "iter":
+		// ghost: number of completed iterations of the innermost enclosing loop
+		var best *loopInfo
+		for _, li := range g.loops {
+			if li.body[g.curBlock] && (best == nil || len(li.body) < len(best.body)) {
+				best = li
+			}
+		}
+		if best == nil {
+			g.specFail(n, "iter(): no loop here")
+		}
+		return sval{t: g.heapVar(e.st, fmt.Sprintf("ITER.%d", best.ordinal), "Int"), gt: tInt, sort: "Int"}
 	case "rangeidx":
 		// number of completed iterations of the innermost range-over-slice loop (its hidden index + 1)
 		var best *loopInfo
